@@ -67,6 +67,7 @@ func (prop) Extra(_ *core.RNG, _ string, _ string) ([]string, []string, map[stri
 
 const knownClass = "import_name_shadows_template_local"
 const knownClassIface = "unnamed_method_interface_rendered_any"
+const knownClassNestedAlias = "nested_alias_of_unnameable_type"
 
 // ---- the supervised child: the real generator through gengo.NewContext + Execute ----
 
@@ -224,6 +225,32 @@ func (in *Input) normalize() {
 		in.LibPkg = "lib"
 		if in.OriginPkg == "lib" {
 			in.LibPkg = "util"
+		}
+	}
+	if !usableDeclName(in.OriginDecl) || in.OriginDecl == in.OriginPkg {
+		in.OriginDecl = ""
+	}
+	if !usableDeclName(in.LibDecl) || in.LibDecl == in.LibPkg {
+		in.LibDecl = ""
+	}
+	// one declaration per alias name: the first right-hand side met counts; aliases live in the origin package
+	first := map[string]*Ty{}
+	for t := range in.Types {
+		for f := range in.Types[t].Fields {
+			in.Types[t].Fields[f].Ty.aliases(func(a *Ty) {
+				a.Pkg = "origin"
+				if a.Elem == nil {
+					a.Elem = &Ty{K: "basic", Name: "int"}
+				}
+				if d, ok := first[a.Name]; ok {
+					if d != a {
+						cp := *d.Elem
+						a.Elem = &cp
+					}
+				} else {
+					first[a.Name] = a
+				}
+			})
 		}
 	}
 	for g := range in.Groups {
@@ -393,7 +420,7 @@ func (prop) Run(raw json.RawMessage, scratch string) core.Result {
 	_, statErr := os.Stat(genFile)
 	fileWritten := statErr == nil
 	if fileWritten {
-		of, err := abstractFile(genFile)
+		of, err := abstractFile(genFile, in.declNameOfPath)
 		if err != nil {
 			res.GoViolations = append(res.GoViolations, "the written file does not parse: "+sanitize(err.Error(), dir))
 		} else {
@@ -465,6 +492,8 @@ func (prop) Run(raw json.RawMessage, scratch string) core.Result {
 		res.Class = knownClass
 	case in.ifaceClass():
 		res.Class = knownClassIface
+	case in.nestedAliasClass():
+		res.Class = knownClassNestedAlias
 	default:
 		res.Class = in.defectClass()
 	}
@@ -533,6 +562,18 @@ func (prop) Run(raw json.RawMessage, scratch string) core.Result {
 			for _, f := range in.Types[s.Origin].Fields {
 				nf++
 				kinds["field:"+f.Ty.K] = true
+				ft := f.Ty
+				if ft.K == "alias" {
+					kinds["alias_field:"+ft.unalias().K] = true
+					if ft.mentionsUnnameable() {
+						kinds["alias_field:unnameable_target"] = true
+					}
+					if ft.Elem != nil && ft.Elem.K == "alias" {
+						kinds["alias_field:alias_of_alias"] = true
+					}
+				} else {
+					ft.aliases(func(*Ty) { kinds["alias_below_top_level"] = true })
+				}
 				t := string(f.Tag)
 				for _, c := range []string{".", "[", "@", "%", "'", "\"", " ", "\n"} {
 					if strings.Contains(t, c) {
@@ -559,6 +600,12 @@ func (prop) Run(raw json.RawMessage, scratch string) core.Result {
 	}
 	if in.OriginPkg != "origin" || in.LibPkg != "lib" {
 		res.Tags = append(res.Tags, "pkgname:"+in.OriginPkg+"/"+in.LibPkg)
+	}
+	if in.OriginDecl != "" || in.LibDecl != "" {
+		res.Tags = append(res.Tags, "package_clause_unlike_directory")
+		if in.OriginDecl == in.LibPkg || in.LibDecl == in.OriginPkg {
+			res.Tags = append(res.Tags, "package_clause_like_another_directory")
+		}
 	}
 	if res.Class != "" {
 		res.Tags = append(res.Tags, "class:"+res.Class)
